@@ -266,6 +266,47 @@ theorem removeNodeByName_absent (h : G) (d : Dir) (name : Nat)
   simp [removeNodeByName, this]
 
 
+/-- **`NetworkService.remove_interface`** of a port `i` of service `s` (substrate topologies): the port with its
+sub-interfaces and the Links left with at most one end go; the handle lists afterwards what a fresh lookup lists -/
+theorem removeInterface_wf (g : G) (hW : WF g = true) (h : List IfH) (s i : Nat) (hs : g.cls? s = some .ns)
+    (hi : i ∈ g.nbrs s .connects .cp) (hh : ∀ y, y ∈ hIds h ↔ y ∈ freshIfs g s) :
+    ∃ D, removeInterface g h i = .ok (g.minus D, hDrop h i) ∧
+      (∀ y, y ∈ D ↔ Below g i y ∨ (g.cls? y = some .link ∧ 2 ≤ (g.nbrs y .connects .cp).length ∧
+        (∃ e ∈ g.nbrs y .connects .cp, Below g i e) ∧
+        ∀ e1 ∈ g.nbrs y .connects .cp, ∀ e2 ∈ g.nbrs y .connects .cp, ¬ Below g i e1 → ¬ Below g i e2 → e1 = e2)) ∧
+      ∀ y, y ∈ hIds (hDrop h i) ↔ y ∈ freshIfs (g.minus D) s := by
+  have hI := wf_cp hW
+  have hic := mem_nbrs_cls _ _ _ _ _ hi
+  have his := port_not_sub hs hi
+  obtain ⟨A, hr, _, hmem, hInv⟩ := removeCpTop_below g hW [] (invC_nil g) i hic his (by simp)
+  rw [minus_nil] at hr
+  have hmem' : ∀ y, g.cls? y ≠ some .link → (y ∈ A ↔ Below g i y) := fun y hy => by rw [hmem y hy]; simp
+  refine ⟨A, by simp [removeInterface, hr, Except.map], ?_, ?_⟩
+  · exact mem_iff_closure g hW (Below g i) A hInv.1 (fun e he => below_cls hic (by decide) he) hmem'
+  · rw [hIds_hDrop]
+    apply fresh_after_minus g s i A (hIds h) ?_ ?_ hh
+    · have : s ∉ A := fun h' => by
+        rcases (below_cp_top hI hic his s).mp ((hmem' s (by rw [hs]; intro h; cases h)).mp h') with rfl | h''
+        · rw [hs] at hic; cases hic
+        · have := mem_nbrs_cls _ _ _ _ _ h''; rw [hs] at this; cases this
+      simpa [List.contains_eq_mem] using this
+    · intro y hy
+      have hyc := mem_nbrs_cls _ _ _ _ _ hy
+      rw [hmem' y (by rw [hyc]; intro h; cases h), below_cp_top hI hic his y]
+      constructor
+      · rintro (h' | h')
+        · exact h'
+        · -- a sub-interface of `i` is not attached to a service
+          have := (child_nbrs hI hic his h').2.1
+          rw [port_not_sub hs hy] at this; cases this
+      · exact Or.inl
+
+theorem removeInterfaceByName_eq (g : G) (d : Dir) (h : List IfH) (s i name : Nat) (hs : g.cls? s = some .ns)
+    (hi : i ∈ g.nbrs s .connects .cp) (hname : d.nameOf i = some name)
+    (huniq : ∀ y ∈ g.nbrs s .connects .cp, d.nameOf y = some name → y = i) :
+    removeInterfaceByName g d h s name = removeInterface g h i := by
+  simp [removeInterfaceByName, hs, findChild_unique hi hname huniq, bind, Except.bind]
+
 /-! ### the collection phase of `prune` -/
 
 theorem foldl_inv {α β : Type} (P : β → Prop) (f : β → α → β) : ∀ (xs : List α) (b : β), P b →
@@ -393,6 +434,149 @@ theorem pruneCollect_ok (g : G) (d : Dir) (hid : (g.nodes.map (·.id)).Nodup) : 
       · exact hm.nss j hj
       · exact ⟨hsns, hmk⟩
     · simp only [hmk, Bool.false_eq_true, ite_false]; exact hm
+
+
+/-! ### completeness of the collection phase (nodes, services) -/
+
+/-- a fold whose steps never drop an element of the projection `π` and whose step at `x0` adds `y0` ends with `y0` -/
+theorem foldl_mem {α β : Type} (π : β → List Nat) (f : β → α → β) (y0 : Nat) (x0 : α)
+    (hmono : ∀ b x y, y ∈ π b → y ∈ π (f b x)) (hadd : ∀ b, y0 ∈ π (f b x0)) :
+    ∀ (xs : List α) (b : β), x0 ∈ xs → y0 ∈ π (xs.foldl f b)
+  | x :: xs, b, hx => by
+    simp only [List.foldl_cons]
+    rcases List.mem_cons.mp hx with rfl | hx
+    · exact foldl_inv (fun b' => y0 ∈ π b') f xs _ (hadd b) (fun b' x' _ h => hmono b' x' y0 h)
+    · exact foldl_mem π f y0 x0 hmono hadd xs _ hx
+
+theorem collectIfs_nodes (g : G) (d : Dir) (m : Marked) (s : Nat) :
+    (collectIfs g d m s).nodes = m.nodes ∧ (collectIfs g d m s).nss = m.nss ∧ (collectIfs g d m s).seen = m.seen ∧
+    (collectIfs g d m s).comps = m.comps := by
+  unfold collectIfs
+  apply foldl_inv (fun m' => m'.nodes = m.nodes ∧ m'.nss = m.nss ∧ m'.seen = m.seen ∧ m'.comps = m.comps) _ _ m ⟨rfl, rfl, rfl, rfl⟩
+  intro m' i _ h
+  split <;> exact h
+
+theorem collectComp_nodes (g : G) (d : Dir) (m : Marked) (c : Nat) :
+    (collectComp g d m c).nodes = m.nodes ∧ (collectComp g d m c).comps = m.comps := by
+  unfold collectComp
+  apply foldl_inv (fun m' => m'.nodes = m.nodes ∧ m'.comps = m.comps) _ _ m ⟨rfl, rfl⟩
+  intro m' s _ h
+  obtain ⟨h1, _, _, h4⟩ := collectIfs_nodes g d
+    (if d.isMarked s = true then { ({ m' with seen := addSet m'.seen s } : Marked) with nss := addSet m'.nss s }
+     else { m' with seen := addSet m'.seen s }) s
+  constructor
+  · rw [h1]; split <;> exact h.1
+  · rw [h4]; split <;> exact h.2
+
+theorem collectNode_nodes_mono (g : G) (d : Dir) (m : Marked) (n y : Nat) (h : y ∈ m.nodes) : y ∈ (collectNode g d m n).nodes := by
+  unfold collectNode
+  show y ∈ Marked.nodes (List.foldl _ _ _)
+  apply foldl_inv (fun m' : Marked => y ∈ m'.nodes) _ _ _ _
+  · intro m' c _ h'
+    rw [(collectComp_nodes g d _ c).1]
+    split <;> exact h'
+  · split
+    · exact (mem_addSet _ _ _).mpr (Or.inl h)
+    · exact h
+
+theorem collectNode_adds (g : G) (d : Dir) (m : Marked) (n : Nat) (hm : d.isMarked n = true) : n ∈ (collectNode g d m n).nodes := by
+  unfold collectNode
+  show n ∈ Marked.nodes (List.foldl _ _ _)
+  apply foldl_inv (fun m' : Marked => n ∈ m'.nodes) _ _ _ _
+  · intro m' c _ h'
+    rw [(collectComp_nodes g d _ c).1]
+    split <;> exact h'
+  · simp only [hm, ite_true]; exact (mem_addSet _ _ _).mpr (Or.inr rfl)
+
+/-- **completeness of the collection phase for nodes**: every marked node of `Topology.nodes` is collected -/
+theorem pruneCollect_nodes_complete (g : G) (d : Dir) (n : Nat) (hn : n ∈ topoNodes g d) (hm : d.isMarked n = true) :
+    n ∈ (pruneCollect g d).nodes := by
+  unfold pruneCollect
+  show n ∈ Marked.nodes (List.foldl _ _ _)
+  apply foldl_inv (fun m' : Marked => n ∈ m'.nodes) _ _ _ _
+  · intro m' s _ h'
+    split
+    · exact h'
+    · rw [(collectIfs_nodes g d _ s).1]; split <;> exact h'
+  · exact foldl_mem (·.nodes) (collectNode g d) n n (fun b x y h => collectNode_nodes_mono g d b x y h)
+      (fun b => collectNode_adds g d b n hm) _ _ hn
+
+
+theorem foldl_mem_inv {α β : Type} (I : β → Prop) (π : β → List Nat) (f : β → α → β) (y0 : Nat) (x0 : α)
+    (hI : ∀ b x, I b → I (f b x)) (hmono : ∀ b x y, y ∈ π b → y ∈ π (f b x)) (hadd : ∀ b, I b → y0 ∈ π (f b x0)) :
+    ∀ (xs : List α) (b : β), I b → x0 ∈ xs → y0 ∈ π (xs.foldl f b)
+  | x :: xs, b, hb, hx => by
+    simp only [List.foldl_cons]
+    rcases List.mem_cons.mp hx with rfl | hx
+    · exact foldl_inv (fun b' => y0 ∈ π b') f xs _ (hadd b hb) (fun b' x' _ h => hmono b' x' y0 h)
+    · exact foldl_mem_inv I π f y0 x0 hI hmono hadd xs _ (hI b x hb) hx
+
+/-- every service seen so far that is marked has been collected -/
+def SeenOK (d : Dir) (m : Marked) : Prop := ∀ s ∈ m.seen, d.isMarked s = true → s ∈ m.nss
+
+theorem collectIfs_seenOK {g : G} {d : Dir} {m : Marked} (s : Nat) (h : SeenOK d m) : SeenOK d (collectIfs g d m s) := by
+  obtain ⟨_, h2, h3, _⟩ := collectIfs_nodes g d m s
+  intro s' hs' hm'
+  rw [h2]; rw [h3] at hs'; exact h s' hs' hm'
+
+theorem collectComp_seenOK {g : G} {d : Dir} {m : Marked} (c : Nat) (h : SeenOK d m) : SeenOK d (collectComp g d m c) := by
+  unfold collectComp
+  apply foldl_inv (SeenOK d) _ _ m h
+  intro m' s _ hm'
+  apply collectIfs_seenOK
+  intro s' hs' hmk
+  by_cases hms : d.isMarked s = true
+  · simp only [hms, ite_true] at hs' ⊢
+    rcases (mem_addSet _ _ _).mp hs' with h' | rfl
+    · exact (mem_addSet _ _ _).mpr (Or.inl (hm' s' h' hmk))
+    · exact (mem_addSet _ _ _).mpr (Or.inr rfl)
+  · simp only [hms, Bool.false_eq_true, ite_false] at hs' ⊢
+    rcases (mem_addSet _ _ _).mp hs' with h' | rfl
+    · exact hm' s' h' hmk
+    · exact absurd hmk hms
+
+theorem collectNode_seenOK {g : G} {d : Dir} {m : Marked} (n : Nat) (h : SeenOK d m) : SeenOK d (collectNode g d m n) := by
+  unfold collectNode
+  show SeenOK d (List.foldl _ _ _)
+  apply foldl_inv (SeenOK d) _ _ _ _
+  · intro m' c _ hm'
+    apply collectComp_seenOK
+    split <;> exact hm'
+  · split <;> exact h
+
+/-- **completeness of the collection phase for services**: every marked service of `Topology.network_services` is
+collected, whether it was met below a component or only in the final pass -/
+theorem pruneCollect_nss_complete (g : G) (d : Dir) (s : Nat) (hs : s ∈ topoNss g d) (hm : d.isMarked s = true) :
+    s ∈ (pruneCollect g d).nss := by
+  unfold pruneCollect
+  show s ∈ Marked.nss (List.foldl _ _ _)
+  apply foldl_mem_inv (SeenOK d) (·.nss) _ s s _ _ _ _ _ _ hs
+  · intro b x hb
+    split
+    · exact hb
+    · apply collectIfs_seenOK
+      intro s' hs' hmk
+      by_cases hx : d.isMarked x = true
+      · simp only [hx, ite_true] at hs' ⊢
+        exact (mem_addSet _ _ _).mpr (Or.inl (hb s' hs' hmk))
+      · simp only [hx, Bool.false_eq_true, ite_false] at hs' ⊢
+        exact hb s' hs' hmk
+  · intro b x y hy
+    split
+    · exact hy
+    · rw [(collectIfs_nodes g d _ x).2.1]
+      split
+      · exact (mem_addSet _ _ _).mpr (Or.inl hy)
+      · exact hy
+  · intro b hb
+    split
+    · rename_i hseen
+      exact hb s (by simpa [List.contains_eq_mem] using hseen) hm
+    · rw [(collectIfs_nodes g d _ s).2.1]
+      exact (mem_addSet _ _ _).mpr (Or.inr rfl)
+  · apply foldl_inv (SeenOK d) _ _ _ (by intro s' hs'; cases hs')
+    intro m' n _ hm'
+    exact collectNode_seenOK n hm'
 
 
 /-! ### `prune` through its public entry point -/
